@@ -24,6 +24,23 @@ type SyncClock struct {
 	RTPTimeUnit float64 // RTP时间单位，每个RTP时间的纳秒数
 
 	initOn time.Time // 初始化时间
+
+	// RTP 时间戳按 2^32 回绕；把收到的时间戳展开成单调的 64 位值
+	hasLast bool
+	last    uint32 // 最近一次收到的 RTP 时间戳
+	ext     int64  // last 展开后的值
+	base    int64  // RTPTime 展开后的值
+}
+
+// extend 把 32 位 RTP 时间戳展开（相邻两次之差按有符号 32 位计算，允许乱序）
+func (sc *SyncClock) extend(rtptime uint32) int64 {
+	if !sc.hasLast {
+		sc.hasLast, sc.last, sc.ext = true, rtptime, int64(rtptime)
+	} else {
+		sc.ext += int64(int32(rtptime - sc.last))
+		sc.last = rtptime
+	}
+	return sc.ext
 }
 
 // Init 初始化同步时钟
@@ -45,6 +62,11 @@ func (sc *SyncClock) Decode(data []byte) (ok bool) {
 		lsw := binary.BigEndian.Uint32(data[12:])
 		sc.RTPTime = binary.BigEndian.Uint32(data[16:])
 		sc.NTPTime = int64(msw-jan1970)*int64(time.Second) + (int64(lsw)*1000_000_000)>>32
+		if sc.hasLast {
+			sc.base = sc.ext + int64(int32(sc.RTPTime-sc.last))
+		} else {
+			sc.base = int64(sc.RTPTime)
+		}
 		ok = true
 	}
 	return
@@ -57,12 +79,12 @@ func (sc *SyncClock) RelativeNtpNow() int64 {
 
 // RelativeNtp .
 func (sc *SyncClock) RelativeNtp(rtptime uint32) int64 {
-	diff := int64(rtptime) - int64(sc.RTPTime)
+	diff := sc.extend(rtptime) - sc.base
 	return int64(float64(diff) * sc.RTPTimeUnit)
 }
 
 // AbsoluteNtp .
 func (sc *SyncClock) AbsoluteNtp(rtptime uint32) int64 {
-	diff := int64(rtptime) - int64(sc.RTPTime)
+	diff := sc.extend(rtptime) - sc.base
 	return sc.NTPTime + int64(float64(diff)*sc.RTPTimeUnit)
 }
